@@ -11,6 +11,7 @@ from usim import time, Scope, until, instant, eternity, Concurrent, TaskCancelle
 
 from ..engine import EQ, GE, LE, LT, GT, AND, OR, NOT, IMPLIES, MAX, MIN
 from ..explore import Family
+from . import c16 as _c16
 from ..kit import Log, simulate, now, classify_run_exception, UserErr, UserErrA, UserErrB, at_cp
 
 BOUNDS = ('n<=2 (thorough 3) children ending at symbolic dates in [0,30] by finish / UserErrA / '
@@ -244,6 +245,22 @@ FAMILIES = [
            reach=['concurrent', 'no-failure', 'privileged'],
            bounds='the scope is an until-scope whose notification (a far delay / an unset flag) '
                   'does not fire'),
+    # the scopes that first() and collect() open for their activities are Scopes like any other;
+    # first() additionally suspends / resumes the scope's interrupts around every result it hands
+    # out.  The harnesses and oracles are those of C16 (prompt failure as Concurrent[type] at the
+    # date of the failure, no activity code afterwards).
+    Family('first_scope', _c16.fam_first,
+           quick=dict(n=2, fault_kinds=_c16.NOF, counts=[None, 1, 2],
+                      consumers=[_c16.PROMPT, _c16.SLOW], failing=True),
+           thorough=dict(n=3, fault_kinds=_c16.NOF, counts=[None, 1, 2, 3],
+                         consumers=[_c16.PROMPT, _c16.SLOW, _c16.BREAK], failing=True),
+           reach=['failure'],
+           bounds='the scope inside first(): one of 2 (thorough 3) activities fails at a '
+                  'symbolic date, before / in the time step of / after results are handed out'),
+    Family('collect_scope', _c16.fam_collect,
+           quick=dict(n=3, fault_kinds=_c16.NOF),
+           reach=['failure'],
+           bounds='the scope inside collect(): one of 3 activities fails at a symbolic date'),
     Family('three', fam_fail,
            thorough=dict(n=3, kinds=[FINISH, ERR_A, SYS_EXIT, NESTED], body_kinds=[FINISH, ERR_A]),
            reach=REACH, bounds='3 children'),
